@@ -62,7 +62,12 @@ def floors(tier):
             'strict_equal_compared': 10000, 'prefix_rule_checked': 8000, 'recovery_exercised': 15000,
             'text_retention_checked': 20000, 'histkeys:truncation_tail': 9,
             'custom_context_soups': 500, 'parser_class_context_soups': 1000,
-            'parses_from_configured_state': 2000, 'stop_condition_entry_points': 3000, 'histkeys:start_state': 17}
+            'parses_from_configured_state': 2000, 'stop_condition_entry_points': 3000, 'parser_class_truncations': 1000, 'histkeys:start_state': 17}
+
+
+WF_PARSER_CLASS_ATOMS = ['\\csl{WORD,WORD,WORD}', '\\csl{WORD, {WORD,WORD} ,WORD}', '\\chg{WORD{WORD}WORD}', '\\anyd(WORD)',
+                         '\\full{WORD}', '\\ttl{WORD}\\label{WORD}', '\\flag* ', 'WORD ', '\\emb^{WORD}_WORD ', '\\lgc*[WORD]{WORD}',
+                         '\\anyd[WORD]', '{WORD}', '\\lgd{WORD}*', '\\begin{envf}+WORD\\end{envf}', '\\csl{WORD}']
 
 
 def setup(rec):
@@ -237,6 +242,26 @@ def run_shard(desc, rec):
             rec.case()
             rec.monitor('parser_class_context_soups')
             check_case({'s': s, 'ctx': {'vocab': 'nlargs'}}, rec)
+        # text retention in the parser-class context: well-formed calls with unique words, cut at every position and
+        # followed by a broken tail -- every word written before the cut is still carried by a chars node at its place
+        import re as _re
+        for _ in range(max(20, desc['count'] // 150)):
+            parts = [rng.choice(WF_PARSER_CLASS_ATOMS) for _ in range(rng.randint(1, 4))]
+            doc, n = '', 0
+            for part in parts:
+                while 'WORD' in part:
+                    n += 1
+                    part = part.replace('WORD', 'qz%dq' % n, 1)
+                doc += part
+            spans = [(m.start(), m.end()) for m in _re.finditer(r'qz\d+q', doc)]
+            for c in range(1, len(doc) + 1):
+                if any(a < c < b for a, b in spans):
+                    continue
+                tail = rng.choice(['', '', '}', '\\', ' \\end{x}', '$', ']'])
+                rec.case()
+                rec.monitor('parser_class_truncations')
+                check_case({'s': doc[:c] + tail, 'ctx': {'vocab': 'nlargs'}, 'cut': c,
+                            'kept_text': [[a, b] for (a, b) in spans if b <= c]}, rec)
         # the walker started from a non-default parsing state (every switch of ParsingState)
         for i, s in enumerate(work.soups(rng, max(400, desc['count'] // 3))):
             rec.case()
